@@ -213,6 +213,11 @@ class Dm1:
             self._notify_subscribers(sa, timestamp)
 
     def _send(self, cookie):
+        if self._ca.state != j1939.ControllerApplication.State.NORMAL:
+            # no address (yet, or any more): nothing may be sent - and raising here would end the
+            # ECU's job thread; keep the cycle for the time the CA is operational again
+            return True
+
         # get dm1 data
         self._lamp_status, self._dtc_dic_list = cookie['cb']()
 
